@@ -327,14 +327,22 @@ impl CelValue {
         if let CelValue::Int(l) = lhs {
             match rhs {
                 CelValue::Int(_) => (lhs, rhs),
-                CelValue::UInt(u) => (lhs, (u as i64).into()),
+                CelValue::UInt(u) => match i64::try_from(u) {
+                    Ok(r) => (lhs, r.into()),
+                    // not representable as int, the operators handle this pair exactly
+                    Err(_) => (lhs, rhs),
+                },
                 CelValue::Float(_) => ((l as f64).into(), rhs),
                 CelValue::Bool(b) => (lhs, (b as i64).into()),
                 _ => (lhs, rhs),
             }
         } else if let CelValue::UInt(l) = lhs {
             match rhs {
-                CelValue::Int(_) => ((l as i64).into(), rhs),
+                CelValue::Int(_) => match i64::try_from(l) {
+                    Ok(l) => (l.into(), rhs),
+                    // not representable as int, the operators handle this pair exactly
+                    Err(_) => (lhs, rhs),
+                },
                 CelValue::UInt(_) => (lhs, rhs),
                 CelValue::Float(_) => ((l as f64).into(), rhs),
                 CelValue::Bool(b) => (lhs, (b as u64).into()),
@@ -361,6 +369,36 @@ impl CelValue {
         }
     }
 
+    /// Exact integer arithmetic for an int/uint pair that `type_prop` could not
+    /// widen without loss. The result is an int, or an error if it does not fit.
+    fn mixed_int_op(
+        lhs: &CelValue,
+        rhs: &CelValue,
+        op: fn(i128, i128) -> Option<i128>,
+    ) -> Option<CelValue> {
+        let (l, r) = match (lhs, rhs) {
+            (CelValue::Int(l), CelValue::UInt(r)) => (*l as i128, *r as i128),
+            (CelValue::UInt(l), CelValue::Int(r)) => (*l as i128, *r as i128),
+            _ => return None,
+        };
+
+        Some(match op(l, r).and_then(|v| i64::try_from(v).ok()) {
+            Some(v) => CelValue::from(v),
+            None => CelValue::overflow_error(),
+        })
+    }
+
+    fn overflow_error() -> CelValue {
+        CelValue::from_err(CelError::value("Integer overflow"))
+    }
+
+    fn checked_or_overflow<T: Into<CelValue>>(val: Option<T>) -> CelValue {
+        match val {
+            Some(v) => v.into(),
+            None => CelValue::overflow_error(),
+        }
+    }
+
     pub fn neq(self, rhs: CelValue) -> CelValue {
         self.error_prop_or(rhs, |lhs, rhs| {
             if let CelValue::Bool(res) = CelValueDyn::eq(&lhs, &rhs) {
@@ -380,6 +418,9 @@ impl CelValue {
         match (lhs, rhs) {
             (CelValue::Int(l), CelValue::Int(r)) => Ok(l.partial_cmp(&r)),
             (CelValue::UInt(l), CelValue::UInt(r)) => Ok(l.partial_cmp(&r)),
+            // type_prop leaves an int/uint pair alone only when the uint is above the int range
+            (CelValue::Int(l), CelValue::UInt(r)) => Ok((l as i128).partial_cmp(&(r as i128))),
+            (CelValue::UInt(l), CelValue::Int(r)) => Ok((l as i128).partial_cmp(&(r as i128))),
             (CelValue::Float(l), CelValue::Float(r)) => Ok(l.partial_cmp(&r)),
             (CelValue::Bool(l), CelValue::Bool(r)) => Ok(l.partial_cmp(&r)),
             (CelValue::String(l), CelValue::String(r)) => Ok(l.partial_cmp(&r)),
@@ -1238,15 +1279,19 @@ impl Add for CelValue {
                 (lhs_val, rhs_val)
             };
 
+            if let Some(res) = CelValue::mixed_int_op(&lhs, &rhs, |l, r| l.checked_add(r)) {
+                return res;
+            }
+
             match lhs {
                 CelValue::Int(val1) => {
                     if let CelValue::Int(val2) = rhs {
-                        return CelValue::from(val1 + val2);
+                        return CelValue::checked_or_overflow(val1.checked_add(val2));
                     }
                 }
                 CelValue::UInt(val1) => {
                     if let CelValue::UInt(val2) = rhs {
-                        return CelValue::from(val1 + val2);
+                        return CelValue::checked_or_overflow(val1.checked_add(val2));
                     }
                 }
                 CelValue::Float(val1) => {
@@ -1310,15 +1355,19 @@ impl Sub for CelValue {
                 (lhs_val, rhs_val)
             };
 
+            if let Some(res) = CelValue::mixed_int_op(&lhs, &rhs, |l, r| l.checked_sub(r)) {
+                return res;
+            }
+
             match lhs {
                 CelValue::Int(val1) => {
                     if let CelValue::Int(val2) = rhs {
-                        return CelValue::from(val1 - val2);
+                        return CelValue::checked_or_overflow(val1.checked_sub(val2));
                     }
                 }
                 CelValue::UInt(val1) => {
                     if let CelValue::UInt(val2) = rhs {
-                        return CelValue::from(val1 - val2);
+                        return CelValue::checked_or_overflow(val1.checked_sub(val2));
                     }
                 }
                 CelValue::Float(val1) => {
@@ -1361,15 +1410,19 @@ impl Mul for CelValue {
                 (lhs_val, rhs_val)
             };
 
+            if let Some(res) = CelValue::mixed_int_op(&lhs, &rhs, |l, r| l.checked_mul(r)) {
+                return res;
+            }
+
             match lhs {
                 CelValue::Int(val1) => {
                     if let CelValue::Int(val2) = rhs {
-                        return CelValue::from(val1 * val2);
+                        return CelValue::checked_or_overflow(val1.checked_mul(val2));
                     }
                 }
                 CelValue::UInt(val1) => {
                     if let CelValue::UInt(val2) = rhs {
-                        return CelValue::from(val1 * val2);
+                        return CelValue::checked_or_overflow(val1.checked_mul(val2));
                     }
                 }
                 CelValue::Float(val1) => {
@@ -1402,6 +1455,16 @@ impl Div for CelValue {
                 (lhs_val, rhs_val)
             };
 
+            if let (CelValue::Int(_), CelValue::UInt(0)) | (CelValue::UInt(_), CelValue::Int(0)) =
+                (&lhs, &rhs)
+            {
+                return CelValue::from_err(CelError::DivideByZero);
+            }
+
+            if let Some(res) = CelValue::mixed_int_op(&lhs, &rhs, |l, r| l.checked_div(r)) {
+                return res;
+            }
+
             match lhs {
                 CelValue::Int(val1) => {
                     if let CelValue::Int(val2) = rhs {
@@ -1409,7 +1472,7 @@ impl Div for CelValue {
                             return CelValue::from_err(CelError::DivideByZero);
                         }
 
-                        return CelValue::from(val1 / val2);
+                        return CelValue::checked_or_overflow(val1.checked_div(val2));
                     }
                 }
                 CelValue::UInt(val1) => {
@@ -1451,14 +1514,33 @@ impl Rem for CelValue {
                 (lhs_val, rhs_val)
             };
 
+            if let (CelValue::Int(_), CelValue::UInt(0)) | (CelValue::UInt(_), CelValue::Int(0)) =
+                (&lhs, &rhs)
+            {
+                return CelValue::from_err(CelError::DivideByZero);
+            }
+
+            if let Some(res) = CelValue::mixed_int_op(&lhs, &rhs, |l, r| l.checked_rem(r)) {
+                return res;
+            }
+
             match lhs {
                 CelValue::Int(val1) => {
                     if let CelValue::Int(val2) = rhs {
-                        return CelValue::from(val1 % val2);
+                        if val2 == 0 {
+                            return CelValue::from_err(CelError::DivideByZero);
+                        }
+
+                        // MIN % -1 is 0, wrapping_rem gives exactly that
+                        return CelValue::from(val1.wrapping_rem(val2));
                     }
                 }
                 CelValue::UInt(val1) => {
                     if let CelValue::UInt(val2) = rhs {
+                        if val2 == 0 {
+                            return CelValue::from_err(CelError::DivideByZero);
+                        }
+
                         return CelValue::from(val1 % val2);
                     }
                 }
@@ -1485,7 +1567,7 @@ impl Neg for CelValue {
 
         match self {
             CelValue::Int(val1) => {
-                return CelValue::from(-val1);
+                return CelValue::checked_or_overflow(val1.checked_neg());
             }
             CelValue::Float(val1) => {
                 return CelValue::from(-val1);
